@@ -246,6 +246,13 @@ def tail_guarded(fn, bi, arg_local, tainted, cons_variant=None):
             if cfg.dominates(idom, sdom, bi) and all(p == si for p in fn.pred_map()[sdom]):
                 if cons_idx in explicit and explicit[cons_idx] != sdom:
                     return True
+        # the same test through a boolean (`if !matches!(cell.cdr(), Value::Null | Value::Cons(_)) { recurse }`): the
+        # switch dominates the call and no consistent path leads from its Cons edge to the call
+        if cons_idx in explicit and cfg.dominates(idom, si, bi) and si != bi:
+            from . import progress
+            # (re-entering the switch, e.g. in the next iteration of a loop over the cells, is a new test)
+            if not progress.feasible_path(fn, explicit[cons_idx], bi, avoid=(si,)):
+                return True
     return False
 
 
